@@ -316,7 +316,7 @@ def show_contents(contents: Any, toks: Tokens) -> str:
     ents = []
     for e in contents.entries:
         ents.append(":".join([cps(e.name), str(toks.find(e.cr)), "-" if e.secret is None else str(toks.find(e.secret)),
-                              "-" if e.generation is None else str(e.generation)]))
+                              "-" if e.generation is None else str(e.generation) if type(e.generation) is int else "?" + repr(e.generation)]))
     return (f"ok v={m.version} ts={cps(m.timestamp)} ns={cps(m.namespace)} n={m.deployment_count} "
             f"enc={'1' if m.encrypted else '0'} entries=" + ";".join(ents))
 
@@ -414,7 +414,11 @@ def monitor_backup(I: Impl, case: dict, deps: list[dict], secrets: dict, gens: d
         out.violations.append(Violation(f"C33/roundtrip[read_fails:{r},pw={pc}]",
                                         f"archive written with password class {pc} cannot be read back with the same password: {r}", case))
     else:
-        got = [(e.name, canon(e.cr), None if e.secret is None else canon(e.secret), e.generation) for e in r.entries]
+        got = [(e.name, canon(e.cr), None if e.secret is None else canon(e.secret), canon(e.generation) if e.generation is not None else None)
+               for e in r.entries]
+        exp = [(a, b, c, canon(d) if d is not None else None) for a, b, c, d in exp]
+        # "under the same names": the order of the entries is left to the correspondence, not enforced here
+        got, exp = sorted(got, key=repr), sorted(exp, key=repr)
         if got != exp:
             what = ("entry_count" if len(got) != len(exp) else
                     "names" if [g[0] for g in got] != [x[0] for x in exp] else
